@@ -56,3 +56,240 @@ Example view_example_flicker :
   snd (execs (world0x [] (fun _ _ => false) flicker) view_ops) = snd (spec_execs [] [] view_ops)
   /\ abs (fst (execs (world0x [] (fun _ _ => false) flicker) view_ops)) = fst (spec_execs [] [] view_ops).
 Proof. vm_compute. repeat split; reflexivity. Qed.
+
+(* ---------- every stream of values the machine can deliver is an oracle ----------
+   [runv] is [run] with the values of the atomic reads supplied from outside: the k-th event of the log, if it is an atomic
+   read of the count, returns [av k] (what the protocol machine handed to the thread; clamped from below by the world's
+   own count, which by Compose.typed_values_ge_own changes nothing: such a value is never below the thread's own number
+   of references).  [runv_is_run]: for every such stream there is
+   an oracle under which [run] performs exactly the same execution — so the quantification over all oracles in
+   [thread_results_sequential] covers every value stream other threads can produce. *)
+Definition with_ext (m : mem) (ex : N -> N) : mem :=
+  {| heap := heap m; statics := statics m; orc := orc m; nreq := nreq m; log := log m; ext := ex |}.
+
+Fixpoint runv {R} (c : cmd R) (av : N -> N) (m : mem) : out R * mem :=
+  match c with
+  | Rmw b add o k =>
+      match nth_error (heap m) b with
+      | None => (OUb UNoBuf, m)
+      | Some x => if negb (live x) then (OUb UUseAfterFree, m) else
+          let v := N.max (av (len (log m))) (count x) in
+          let e := v - count x in
+          runv (k v) av (set_buf m b {| live := rmw_live add (count x) e; asize := asize x;
+                                        count := if add then count x + 1 else count x - 1;
+                                        cap := cap x; data := data x |} (ERmw b add o v))
+      end
+  | Load b o k =>
+      match nth_error (heap m) b with
+      | None => (OUb UNoBuf, m)
+      | Some x => if negb (live x) then (OUb UUseAfterFree, m) else
+          let v := N.max (av (len (log m))) (count x) in runv (k v) av (logm m (ELoad b o v))
+      end
+  | Ret r => (OVal r, m)
+  | Unreachable => (OUb UUnreachable, m)
+  | Alloc n k =>
+      if orc m (nreq m) n then
+        runv (k None) av {| heap := heap m; statics := statics m; orc := orc m; nreq := nreq m + 1;
+                            log := EAlloc n None :: log m; ext := ext m |}
+      else
+        let b := length (heap m) in
+        runv (k (Some b)) av
+            {| heap := heap m ++ [ {| live := true; asize := n; count := 0; cap := 0;
+                                      data := repeat POISON (N.to_nat (n - HDR)) |} ];
+               statics := statics m; orc := orc m; nreq := nreq m + 1; log := EAlloc n (Some b) :: log m; ext := ext m |}
+  | Realloc b old new k =>
+      match nth_error (heap m) b with
+      | None => (OUb UNoBuf, m)
+      | Some x =>
+          if negb (live x) then (OUb UUseAfterFree, m) else
+          if negb (old =? asize x) then (OUb UBadSize, m) else
+          if orc m (nreq m) new then
+            runv (k false) av {| heap := heap m; statics := statics m; orc := orc m; nreq := nreq m + 1;
+                                 log := ERealloc b old new false :: log m; ext := ext m |}
+          else
+            let n' := N.to_nat (new - HDR) in
+            let d' := firstn n' (data x) ++ repeat POISON (n' - length (data x)) in
+            runv (k true) av {| heap := upd (heap m) b {| live := true; asize := new; count := count x; cap := cap x; data := d' |};
+                                statics := statics m; orc := orc m; nreq := nreq m + 1;
+                                log := ERealloc b old new true :: log m; ext := ext m |}
+      end
+  | Dealloc b n k =>
+      match nth_error (heap m) b with
+      | None => (OUb UNoBuf, m)
+      | Some x =>
+          if negb (live x) then (OUb UDoubleFree, m) else
+          if negb (n =? asize x) then (OUb UBadSize, m) else
+          runv k av (set_buf m b {| live := false; asize := asize x; count := count x; cap := cap x; data := data x |}
+                             (EDealloc b n))
+      end
+  | HdrInit b c k =>
+      match nth_error (heap m) b with
+      | None => (OUb UNoBuf, m)
+      | Some x => if negb (live x) then (OUb UUseAfterFree, m) else
+          runv k av (set_buf m b {| live := true; asize := asize x; count := 1; cap := c; data := data x |} (EHdrInit b c))
+      end
+  | HdrCap b k =>
+      match nth_error (heap m) b with
+      | None => (OUb UNoBuf, m)
+      | Some x => if negb (live x) then (OUb UUseAfterFree, m) else runv (k (cap x)) av m
+      end
+  | Fence o k => runv k av (logm m (EFence o))
+  | Read (PHeap b) off n k =>
+      match nth_error (heap m) b with
+      | None => (OUb UNoBuf, m)
+      | Some x => if negb (live x) then (OUb UUseAfterFree, m) else
+          if negb (in_bounds off n (data x)) then (OUb UOob, m) else
+          runv (k (slice (data x) (N.to_nat off) (N.to_nat n))) av (logm m (ERead (PHeap b) off n))
+      end
+  | Read (PStatic s) off n k =>
+      match nth_error (statics m) s with
+      | None => (OUb UNoBuf, m)
+      | Some t => if negb (in_bounds off n t) then (OUb UOob, m) else
+                  runv (k (slice t (N.to_nat off) (N.to_nat n))) av (logm m (ERead (PStatic s) off n))
+      end
+  | Write (PHeap b) off bs k =>
+      match nth_error (heap m) b with
+      | None => (OUb UNoBuf, m)
+      | Some x => if negb (live x) then (OUb UUseAfterFree, m) else
+          if negb (in_bounds off (len bs) (data x)) then (OUb UOob, m) else
+          runv k av (set_buf m b {| live := true; asize := asize x; count := count x; cap := cap x;
+                                    data := write_range (data x) (N.to_nat off) bs |} (EWrite (PHeap b) off (len bs)))
+      end
+  | Write (PStatic _) _ _ _ => (OUb UStaticWrite, m)
+  | Move (PHeap b) src dst n k =>
+      match nth_error (heap m) b with
+      | None => (OUb UNoBuf, m)
+      | Some x => if negb (live x) then (OUb UUseAfterFree, m) else
+          if negb (in_bounds src n (data x) && in_bounds dst n (data x)) then (OUb UOob, m) else
+          runv k av (set_buf m b {| live := true; asize := asize x; count := count x; cap := cap x;
+                                    data := move_range (data x) (N.to_nat src) (N.to_nat dst) (N.to_nat n) |}
+                             (EMove (PHeap b) src dst n))
+      end
+  | Move (PStatic _) _ _ _ _ => (OUb UStaticWrite, m)
+  end.
+
+Lemma len_cons {A} (a : A) l : len (a :: l) = len l + 1.
+Proof. unfold len. cbn [length]. lia. Qed.
+
+(* the statement carries its own irrelevance clause: [run] never consults the oracle below the current log length *)
+Definition realises {R} (c : cmd R) (av : N -> N) (m : mem) (ex : N -> N) : Prop :=
+  forall ex0, (forall j, len (log m) <= j -> ex0 j = ex j) ->
+    run c (with_ext m ex0) = (let (o, m') := runv c av m in (o, with_ext m' ex0)).
+
+Theorem runv_is_run {R} (c : cmd R) : forall av m, exists ex, realises c av m ex.
+Proof.
+  induction c as [r| |n k IH|b o n k IH|b n k IH|b c k IH|b k IH|b a o k IH|b o k IH|o k IH|p off n k IH|p off bs k IH|p s d n k IH];
+    intros av m; unfold realises.
+  - exists (fun _ => 0). intros ex0 _. reflexivity.
+  - exists (fun _ => 0). intros ex0 _. reflexivity.
+  - (* alloc *)
+    cbn [run runv with_ext orc nreq heap statics log ext].
+    destruct (orc m (nreq m) n) eqn:Eo.
+    + destruct (IH None av {| heap := heap m; statics := statics m; orc := orc m; nreq := nreq m + 1; log := EAlloc n None :: log m; ext := ext m |}) as (ex & Hex).
+      exists ex. intros ex0 H0. cbn [run with_ext orc nreq heap statics log ext]. rewrite ?Eo.
+      apply (Hex ex0). intros j Hj. apply H0. cbn [log] in Hj. rewrite len_cons in Hj. lia.
+    + destruct (IH (Some (length (heap m))) av
+                   {| heap := heap m ++ [ {| live := true; asize := n; count := 0; cap := 0; data := repeat POISON (N.to_nat (n - HDR)) |} ];
+                      statics := statics m; orc := orc m; nreq := nreq m + 1; log := EAlloc n (Some (length (heap m))) :: log m; ext := ext m |}) as (ex & Hex).
+      exists ex. intros ex0 H0. cbn [run with_ext orc nreq heap statics log ext]. rewrite ?Eo.
+      apply (Hex ex0). intros j Hj. apply H0. cbn [log] in Hj. rewrite len_cons in Hj. lia.
+  - (* realloc *)
+    cbn [run runv with_ext heap].
+    destruct (nth_error (heap m) b) as [x|] eqn:Eb; [|exists (fun _ => 0); intros ex0 _; cbn [run with_ext heap]; rewrite ?Eb; reflexivity].
+    destruct (negb (live x)) eqn:El; [exists (fun _ => 0); intros ex0 _; cbn [run with_ext heap]; rewrite ?Eb, ?El; reflexivity|].
+    destruct (negb (o =? asize x)) eqn:Es; [exists (fun _ => 0); intros ex0 _; cbn [run with_ext heap]; rewrite ?Eb, ?El, ?Es; reflexivity|].
+    cbn [orc nreq]. destruct (orc m (nreq m) n) eqn:Eo.
+    + destruct (IH false av {| heap := heap m; statics := statics m; orc := orc m; nreq := nreq m + 1; log := ERealloc b o n false :: log m; ext := ext m |}) as (ex & Hex).
+      exists ex. intros ex0 H0. cbn [run with_ext orc nreq heap statics log ext]. rewrite ?Eb, ?El, ?Es, ?Eo.
+      apply (Hex ex0). intros j Hj. apply H0. cbn [log] in Hj. rewrite len_cons in Hj. lia.
+    + destruct (IH true av {| heap := upd (heap m) b {| live := true; asize := n; count := count x; cap := cap x;
+                                                         data := firstn (N.to_nat (n - HDR)) (data x) ++ repeat POISON (N.to_nat (n - HDR) - length (data x)) |};
+                              statics := statics m; orc := orc m; nreq := nreq m + 1; log := ERealloc b o n true :: log m; ext := ext m |}) as (ex & Hex).
+      exists ex. intros ex0 H0. cbn [run with_ext orc nreq heap statics log ext]. rewrite ?Eb, ?El, ?Es, ?Eo.
+      apply (Hex ex0). intros j Hj. apply H0. cbn [log] in Hj. rewrite len_cons in Hj. lia.
+  - (* dealloc *)
+    cbn [run runv with_ext heap].
+    destruct (nth_error (heap m) b) as [x|] eqn:Eb; [|exists (fun _ => 0); intros ex0 _; cbn [run with_ext heap]; rewrite ?Eb; reflexivity].
+    destruct (negb (live x)) eqn:El; [exists (fun _ => 0); intros ex0 _; cbn [run with_ext heap]; rewrite ?Eb, ?El; reflexivity|].
+    destruct (negb (n =? asize x)) eqn:Es; [exists (fun _ => 0); intros ex0 _; cbn [run with_ext heap]; rewrite ?Eb, ?El, ?Es; reflexivity|].
+    destruct (IH av (set_buf m b {| live := false; asize := asize x; count := count x; cap := cap x; data := data x |} (EDealloc b n))) as (ex & Hex).
+    exists ex. intros ex0 H0. cbn [run with_ext heap]. rewrite ?Eb, ?El, ?Es.
+    apply (Hex ex0). intros j Hj. apply H0. cbn [set_buf log] in Hj. rewrite len_cons in Hj. lia.
+  - (* hdr init *)
+    cbn [run runv with_ext heap].
+    destruct (nth_error (heap m) b) as [x|] eqn:Eb; [|exists (fun _ => 0); intros ex0 _; cbn [run with_ext heap]; rewrite ?Eb; reflexivity].
+    destruct (negb (live x)) eqn:El; [exists (fun _ => 0); intros ex0 _; cbn [run with_ext heap]; rewrite ?Eb, ?El; reflexivity|].
+    destruct (IH av (set_buf m b {| live := true; asize := asize x; count := 1; cap := c; data := data x |} (EHdrInit b c))) as (ex & Hex).
+    exists ex. intros ex0 H0. cbn [run with_ext heap]. rewrite ?Eb, ?El.
+    apply (Hex ex0). intros j Hj. apply H0. cbn [set_buf log] in Hj. rewrite len_cons in Hj. lia.
+  - (* hdr cap *)
+    cbn [run runv with_ext heap].
+    destruct (nth_error (heap m) b) as [x|] eqn:Eb; [|exists (fun _ => 0); intros ex0 _; cbn [run with_ext heap]; rewrite ?Eb; reflexivity].
+    destruct (negb (live x)) eqn:El; [exists (fun _ => 0); intros ex0 _; cbn [run with_ext heap]; rewrite ?Eb, ?El; reflexivity|].
+    destruct (IH (cap x) av m) as (ex & Hex).
+    exists ex. intros ex0 H0. cbn [run with_ext heap]. rewrite ?Eb, ?El. apply (Hex ex0). exact H0.
+  - (* rmw *)
+    cbn [run runv with_ext heap].
+    destruct (nth_error (heap m) b) as [x|] eqn:Eb; [|exists (fun _ => 0); intros ex0 _; cbn [run with_ext heap]; rewrite ?Eb; reflexivity].
+    destruct (negb (live x)) eqn:El; [exists (fun _ => 0); intros ex0 _; cbn [run with_ext heap]; rewrite ?Eb, ?El; reflexivity|].
+    set (i := len (log m)). set (v := N.max (av i) (count x)). set (e := v - count x).
+    destruct (IH v av (set_buf m b {| live := rmw_live a (count x) e; asize := asize x;
+                                      count := if a then count x + 1 else count x - 1; cap := cap x; data := data x |} (ERmw b a o v))) as (ex1 & Hex).
+    exists (fun j => if j =? i then e else ex1 j). intros ex0 H0. cbn [run with_ext heap]. rewrite ?Eb, ?El.
+    unfold ext_now. cbn [ext log with_ext]. fold i.
+    assert (Ei : ex0 i = e) by (rewrite (H0 i) by (unfold i; lia); rewrite N.eqb_refl; reflexivity).
+    rewrite ?Ei. replace (count x + e) with v by (unfold e, v; lia).
+    apply (Hex ex0). intros j Hj. cbn [set_buf log] in Hj. rewrite len_cons in Hj. fold i in Hj.
+    rewrite (H0 j) by (unfold i in *; lia). destruct (N.eqb_spec j i); [lia|reflexivity].
+  - (* load *)
+    cbn [run runv with_ext heap].
+    destruct (nth_error (heap m) b) as [x|] eqn:Eb; [|exists (fun _ => 0); intros ex0 _; cbn [run with_ext heap]; rewrite ?Eb; reflexivity].
+    destruct (negb (live x)) eqn:El; [exists (fun _ => 0); intros ex0 _; cbn [run with_ext heap]; rewrite ?Eb, ?El; reflexivity|].
+    set (i := len (log m)). set (v := N.max (av i) (count x)). set (e := v - count x).
+    destruct (IH v av (logm m (ELoad b o v))) as (ex1 & Hex).
+    exists (fun j => if j =? i then e else ex1 j). intros ex0 H0. cbn [run with_ext heap]. rewrite ?Eb, ?El.
+    unfold ext_now. cbn [ext log with_ext]. fold i.
+    assert (Ei : ex0 i = e) by (rewrite (H0 i) by (unfold i; lia); rewrite N.eqb_refl; reflexivity).
+    rewrite ?Ei. replace (count x + e) with v by (unfold e, v; lia).
+    apply (Hex ex0). intros j Hj. cbn [logm log] in Hj. rewrite len_cons in Hj. fold i in Hj.
+    rewrite (H0 j) by (unfold i in *; lia). destruct (N.eqb_spec j i); [lia|reflexivity].
+  - (* fence *)
+    destruct (IH av (logm m (EFence o))) as (ex & Hex).
+    exists ex. intros ex0 H0. cbn [run runv]. apply (Hex ex0). intros j Hj. apply H0. cbn [logm log] in Hj. rewrite len_cons in Hj. lia.
+  - (* read *)
+    destruct p as [b|sid]; cbn [run runv with_ext heap statics].
+    + destruct (nth_error (heap m) b) as [x|] eqn:Eb; [|exists (fun _ => 0); intros ex0 _; cbn [run with_ext heap]; rewrite ?Eb; reflexivity].
+      destruct (negb (live x)) eqn:El; [exists (fun _ => 0); intros ex0 _; cbn [run with_ext heap]; rewrite ?Eb, ?El; reflexivity|].
+      destruct (negb (in_bounds off n (data x))) eqn:Ei; [exists (fun _ => 0); intros ex0 _; cbn [run with_ext heap]; rewrite ?Eb, ?El, ?Ei; reflexivity|].
+      destruct (IH (slice (data x) (N.to_nat off) (N.to_nat n)) av (logm m (ERead (PHeap b) off n))) as (ex & Hex).
+      exists ex. intros ex0 H0. cbn [run with_ext heap]. rewrite ?Eb, ?El, ?Ei.
+      apply (Hex ex0). intros j Hj. apply H0. cbn [logm log] in Hj. rewrite len_cons in Hj. lia.
+    + destruct (nth_error (statics m) sid) as [t|] eqn:Es; [|exists (fun _ => 0); intros ex0 _; cbn [run with_ext statics]; rewrite ?Es; reflexivity].
+      destruct (negb (in_bounds off n t)) eqn:Ei; [exists (fun _ => 0); intros ex0 _; cbn [run with_ext statics]; rewrite ?Es, ?Ei; reflexivity|].
+      destruct (IH (slice t (N.to_nat off) (N.to_nat n)) av (logm m (ERead (PStatic sid) off n))) as (ex & Hex).
+      exists ex. intros ex0 H0. cbn [run with_ext statics]. rewrite ?Es, ?Ei.
+      apply (Hex ex0). intros j Hj. apply H0. cbn [logm log] in Hj. rewrite len_cons in Hj. lia.
+  - (* write *)
+    destruct p as [b|sid]; cbn [run runv with_ext heap]; [|exists (fun _ => 0); intros ex0 _; reflexivity].
+    destruct (nth_error (heap m) b) as [x|] eqn:Eb; [|exists (fun _ => 0); intros ex0 _; cbn [run with_ext heap]; rewrite ?Eb; reflexivity].
+    destruct (negb (live x)) eqn:El; [exists (fun _ => 0); intros ex0 _; cbn [run with_ext heap]; rewrite ?Eb, ?El; reflexivity|].
+    destruct (negb (in_bounds off (len bs) (data x))) eqn:Ei; [exists (fun _ => 0); intros ex0 _; cbn [run with_ext heap]; rewrite ?Eb, ?El, ?Ei; reflexivity|].
+    destruct (IH av (set_buf m b {| live := true; asize := asize x; count := count x; cap := cap x;
+                                    data := write_range (data x) (N.to_nat off) bs |} (EWrite (PHeap b) off (len bs)))) as (ex & Hex).
+    exists ex. intros ex0 H0. cbn [run with_ext heap]. rewrite ?Eb, ?El, ?Ei.
+    apply (Hex ex0). intros j Hj. apply H0. cbn [set_buf log] in Hj. rewrite len_cons in Hj. lia.
+  - (* move *)
+    destruct p as [b|sid]; cbn [run runv with_ext heap]; [|exists (fun _ => 0); intros ex0 _; reflexivity].
+    destruct (nth_error (heap m) b) as [x|] eqn:Eb; [|exists (fun _ => 0); intros ex0 _; cbn [run with_ext heap]; rewrite ?Eb; reflexivity].
+    destruct (negb (live x)) eqn:El; [exists (fun _ => 0); intros ex0 _; cbn [run with_ext heap]; rewrite ?Eb, ?El; reflexivity|].
+    destruct (negb (in_bounds s n (data x) && in_bounds d n (data x))) eqn:Ei; [exists (fun _ => 0); intros ex0 _; cbn [run with_ext heap]; rewrite ?Eb, ?El, ?Ei; reflexivity|].
+    destruct (IH av (set_buf m b {| live := true; asize := asize x; count := count x; cap := cap x;
+                                    data := move_range (data x) (N.to_nat s) (N.to_nat d) (N.to_nat n) |} (EMove (PHeap b) s d n))) as (ex & Hex).
+    exists ex. intros ex0 H0. cbn [run with_ext heap]. rewrite ?Eb, ?El, ?Ei.
+    apply (Hex ex0). intros j Hj. apply H0. cbn [set_buf log] in Hj. rewrite len_cons in Hj. lia.
+Qed.
+
+(* the corollary in the form used: for every value stream there is an oracle under which [run] is that execution *)
+Corollary every_value_stream_is_an_oracle {R} (c : cmd R) av m :
+  exists ex, run c (with_ext m ex) = (let (o, m') := runv c av m in (o, with_ext m' ex)).
+Proof. destruct (runv_is_run c av m) as (ex & H). exists ex. apply H. intros j _. reflexivity. Qed.
